@@ -50,7 +50,7 @@ func itemGen() *rapid.Generator[gen.Item] {
 
 func caseGen() *rapid.Generator[Case] {
 	sg := gen.ScriptGen(gen.ScriptOpts{
-		Item:      itemGen(),
+		AllowProps: true, AllowRowErr: true, Item: itemGen(),
 		MinOps:    0,
 		MaxOps:    40,
 		MaxCells:  4,
@@ -67,7 +67,7 @@ func TestProp(t *testing.T) { prop.Rapid(t, caseGen()) }
 // seqGen: histories with renders interleaved, all on the same table, wrappers reused or fresh.
 func seqGen() *rapid.Generator[Case] {
 	sg := gen.ScriptGen(gen.ScriptOpts{
-		Item:        itemGen(),
+		AllowProps: true, AllowRowErr: true, Item: itemGen(),
 		MinOps:      1,
 		MaxOps:      16,
 		MaxCells:    4,
